@@ -143,7 +143,7 @@ pub struct Outcome {
 }
 
 fn ro(p: &Program) -> RenderOpts {
-    RenderOpts { auto: 0, id_bound: if p.has_nonsurjective() { Some(48) } else { None }, max_evals: if p.has_nonsurjective() { 300 } else { 100_000 }, final_close: false, with_steps: false, xq_cap: 0, cases: false }
+    RenderOpts { auto: 0, id_bound: if p.has_nonsurjective() { Some(48) } else { None }, max_evals: if p.has_nonsurjective() { 300 } else { 100_000 }, final_close: false, with_steps: false, xq_cap: 0, cases: false, observe: 0 }
 }
 
 fn strip_closes(h: &[Op]) -> Vec<Op> {
@@ -156,7 +156,7 @@ pub fn run_case(p: &Program, rules: &[FlatRule], exe: &std::path::Path, h: &[Op]
     let h = strip_closes(h);
     let extra = strip_closes(extra);
     let mut cmds = hist::render(p, &h, &r);
-    let bound = hist::close_cmd(&r).replacen("cu 0", "cu 1", 1);
+    let bound = hist::close_cmd(&RenderOpts { observe: 1, ..r });
     cmds.push(hist::Cmd { text: "dump".into(), kind: hist::CmdKind::Dump });
     let dump_line = cmds.len() - 1;
     cmds.push(hist::Cmd { text: bound.clone(), kind: hist::CmdKind::Close });
@@ -453,7 +453,8 @@ pub fn run_c07(tier: &str, seed: u64) -> campaign::CampaignResult {
             ev.sample(s.clone(), 3);
         }
         if let Some((h, extra, choice, msg)) = &pp.finding {
-            let reduced = campaign::reduce_program_with(&pc.program, 30, &|q, rules, b| run_case(q, rules, &b.exe, h, extra, *choice).finding.is_some());
+            let budget = if violations >= 3 { 0 } else { 30 };
+            let reduced = campaign::reduce_program_with(&pc.program, budget, &|q, rules, b| run_case(q, rules, &b.exe, h, extra, *choice).finding.is_some());
             let rep = C07Replay { kind: "c07".into(), property: "C07".into(), source: print::plain(&reduced), program: reduced, history: h.clone(), extra: extra.clone(), choice: *choice, message: msg.clone(), seed };
             let sig = format!("C07:{}", msg.chars().map(|c| if c.is_ascii_digit() { '#' } else { c }).take(90).collect::<String>());
             if let Some(kf) = known.known("C07", &sig) {
